@@ -14,3 +14,6 @@ func Point(site string, arg interface{}) {}
 // Crit is called right before a fatal log exits the process (always false in
 // normal builds: the process exits).
 func Crit(msg string) bool { return false }
+
+// OrderedKeys returns nil: callers fall back to plain map iteration.
+func OrderedKeys[K ~[32]byte | ~[20]byte, V any](site string, m map[K]V) []K { return nil }
